@@ -440,7 +440,9 @@ func readSourceIntentionsFromConfigEntriesForServiceTxn(
 		}
 
 		for _, src := range entry.Sources {
-			if src.SourceServiceName() == sn {
+			// The lookup is for a local source: a peered or sameness-group
+			// source with the same service name is a different intention.
+			if src.Peer == "" && src.SamenessGroup == "" && src.SourceServiceName() == sn {
 				canAdd, err := intentionMatches(targetType, kind, entry.HasWildcardDestination())
 				if err != nil {
 					return nil, err
